@@ -452,6 +452,11 @@ func structuralKey(c *tcase, path, differ string, ref, impl class) string {
 		numOf(top(0)).Cmp(maxInt64) >= 0 {
 		return "pick-roll-depth-operand-truncated-to-64-bits"
 	}
+	if c.op == 0xc0 && impl == cPanic && len(c.data) >= 4 && bytes.IndexByte(top(1), 0x79) >= 0 &&
+		len(top(3)) <= 32 && numOf(top(3)).Cmp(maxInt64) >= 0 {
+		// same mechanism met inside a predicate: the panic escapes CHECKPREDICATE and aborts the parent
+		return "pick-roll-depth-operand-truncated-to-64-bits"
+	}
 	if c.op == 0xc1 && ref == cBadValue && len(c.data) >= 5 {
 		ver, idx := top(1), top(4)
 		if (len(ver) <= 32 && numOf(ver).Cmp(maxU64) > 0) || (len(idx) <= 32 && numOf(idx).Cmp(maxU64) > 0) {
@@ -679,7 +684,7 @@ func positionAlphabet(t tier, op byte, p int) [][]byte {
 		}
 	case 0xc0: // predicates that do something
 		if p == 1 {
-			base = append(base, []byte{0x51}, []byte{0x93}, []byte{0x6a}, []byte{0x76, 0x87}, []byte{0x51, 0x6b, 0x52},
+			base = append(base, []byte{0x51}, []byte{0x93}, []byte{0x6a}, []byte{0x79}, []byte{0x76, 0x87}, []byte{0x51, 0x6b, 0x52},
 				[]byte{0xc4}, []byte{0x51, 0x51, 0x00, 0xc0}, []byte{0x63, 0, 0, 0, 0}, []byte{0x50, 0x51})
 		}
 		if p == 0 { // limit operand
@@ -688,6 +693,9 @@ func positionAlphabet(t tier, op byte, p int) [][]byte {
 	}
 	if p < full {
 		return base
+	}
+	if op == 0xc0 && p == 3 { // first predicate argument: include a depth operand that does not fit 63 bits
+		return append(bytesOf(setR), le(new(big.Int).Lsh(big1, 63), 8))
 	}
 	if t.thorough {
 		return bytesOf(setR)
